@@ -47,3 +47,13 @@ Example C06_nonvacuous :
   par_fold sumZ Z.add (Node 2 (Node 1 Leaf Leaf) Leaf) [1;2;3;4;5]%Z
   = par_fold sumZ Z.add (Node 4 Leaf (Node 0 Leaf Leaf)) [1;2;3;4;5]%Z.
 Proof. reflexivity. Qed.
+
+(* "equal up to a renaming of parts" (MultiJagged): equal canonical forms mean
+   the two outputs induce the same partition of the index set *)
+Theorem C06_canon_same_kernel : forall p q, canon p = canon q ->
+  length p = length q /\
+  forall i j x y x' y', nth_opt p i = Some x -> nth_opt p j = Some y ->
+                        nth_opt q i = Some x' -> nth_opt q j = Some y' ->
+                        (x = y <-> x' = y').
+Proof. exact canon_same_kernel. Qed.
+Print Assumptions C06_canon_same_kernel.
